@@ -322,6 +322,42 @@ def run_case(inp):
             V("no-mutation", "an operation modified its input table: " + out[:200])
         if "bin-membership" in out:
             V("cut-bins", "cutby group contains a value outside its (gt, le] interval")
+    elif kind == "mixed-features":
+        # operands whose feature columns are a subset (possibly empty) of the other's: the result is either
+        # rejected or has one feature row per molecule, the rows of each operand keeping their own values
+        k = int(inp["k"])
+        sub = inp["subset"]
+
+        def other():
+            t = make_table(range(100, 100 + k))
+            if sub == "none":
+                return Molecules(t.pos, t.rotator)
+            if sub == "some":
+                return Molecules(t.pos, t.rotator, features=t.features.select(["tag"]))
+            return t
+        variants = {
+            "append": lambda: make_table(range(n)).append(other()),
+            "concat_with": lambda: make_table(range(n)).concat_with(other()),
+            "concat": lambda: Molecules.concat([make_table(range(n)), other()]),
+            "concat-reversed": lambda: Molecules.concat([other(), make_table(range(n))]),
+            "append-to-plain": lambda: other().append(make_table(range(n))),
+        }
+        for name, f in variants.items():
+            try:
+                r = f()
+            except (ValueError, TypeError, pl.exceptions.PolarsError):
+                continue                         # rejected: allowed
+            npos, nrot, feat = len(r.pos), len(r.quaternion()), r.features
+            if npos != n + k or nrot != npos or (feat.width > 0 and feat.height != npos):
+                V("counts", f"{name} of {n} molecules with features and {k} molecules with {sub} of them: {npos} positions, "
+                            f"{nrot} orientations, {feat.height} feature rows ({feat.width} columns)")
+                continue
+            if feat.width > 0 and "tag" in feat.columns:
+                tags = [int(round(float(x))) for x in r.pos[:, 0]]
+                ft = feat["tag"].to_list()
+                bad = [(t, v) for t, v in zip(tags, ft) if v is not None and v != t]
+                if bad or (sub != "none" and any(v is None for v in ft)):
+                    V("rows-together", f"{name}: feature rows {ft} do not belong to the molecules at {tags}")
     elif kind == "alias":
         # objects related by copy / derivation / append share no state: an in-place append on one of them
         # leaves the others intact (their three containers stay parallel)
@@ -424,6 +460,8 @@ def oracle(rng, thorough, deep=False, hints=None):
         cases.append(dict(kind="partition", n=int(rng.integers(1, 13)), g=int(rng.integers(1, 5)),
                           edges=sorted({float(x) for x in rng.integers(-1, 12, size=3)})))
     cases.append(dict(kind="reject", n=3))
+    for it, sub in enumerate(["none", "some", "all"]):
+        cases.append(dict(kind="mixed-features", n=int(rng.integers(1, 6)), k=int(rng.integers(1, 4)), subset=sub))
     for n in ((0, 1, 3, 6) if big else (3, 0)):
         cases.append(dict(kind="alias", n=n))
     for b in (hints or {}).get("k2", []):      # histories on which model and implementation disagreed
